@@ -1,8 +1,8 @@
 (* C10 — Merge result is independent of the order in which inputs are supplied. *)
 From Coq Require Import List Bool NArith Permutation Sorted String.
 Import ListNotations.
-From Mos Require Import Str Xml Outcome Classify Messages Collection.
-From Mos.proofs Require Import CollFacts.
+From Mos Require Import Str Xml Outcome Elements Classify Messages Merge Collection.
+From Mos.proofs Require Import CollFacts CollOrder.
 
 (* Every permutation of a list of readers with distinct message IDs sorts to the same list
    (hence the same merge). *)
@@ -23,3 +23,15 @@ Theorem C10_numeric_example :
   map parse_nat [lit "9"%string; lit "10"%string; lit "100"%string] = [Some 9%N; Some 10%N; Some 100%N].
 Proof. vm_compute. reflexivity. Qed.
 Print Assumptions C10_numeric_example.
+
+(* End to end (readers, sorting, validation, merge loop): for documents whose readers can all
+   be built and carry distinct message IDs, every ordering of the supplied documents gives the
+   same outcome of the whole pipeline - the same InvalidMosCollection, or the same merged
+   running order with the same warnings and the same error - for either value of
+   allow_incomplete and of strict, and whatever the oracles answer. *)
+Theorem C10_collection_merge_perm_invariant :
+  forall (o : oracles) (ds ds' : list xml) (rs : list reader) (inc strict : bool),
+  Permutation ds ds' -> make_readers ds = inr rs -> NoDup (map rd_mid rs) ->
+  collection_merge o ds' inc strict = collection_merge o ds inc strict.
+Proof. exact collection_merge_perm. Qed.
+Print Assumptions C10_collection_merge_perm_invariant.
